@@ -19,6 +19,22 @@ Check (C14_exports_loader : forall (t : type_opts) (d : doc) (B B' : list defbod
   incl (map zero_export (value_exports (scan (dts_ops t d B))))
        (value_exports (scan (js_ops (t_base t) (loader_view d) B')))
   /\ default_names (scan (dts_ops t d B)) = default_names (scan (js_ops (t_base t) (loader_view d) B'))).
+Check (C14_runtime_exports_partial : forall (t : type_opts) (d : doc) (B B' : list defbody),
+  bodies_ok B = true -> bodies_ok B' = true -> names_ok t d = true ->
+  length B = length (defs d) -> length B' = length (defs d) ->
+  distinct_vars (t_base t) d = true ->
+  incl (map zero_export (value_exports (scan (dts_ops t d B))))
+       (runtime_exports (scan (js_ops (t_base t) (loader_view d) B')))
+  /\ default_names (scan (dts_ops t d B)) = default_names (scan (js_ops (t_base t) (loader_view d) B'))).
+Check (C14_loadable_iff_distinct : forall (o : base_opts) (d : doc) (B : list defbody),
+  bodies_ok B = true -> length B = length (defs d) ->
+  loadable (scan (js_ops o d B)) = distinct_vars o d).
+Check (C14_runtime_exports_refuted : exists c d B,
+  doc_valid_names d = true /\
+  bodies_ok B = true /\ names_ok (type_from_config (parse_config c)) d = true
+  /\ length B = length (defs d)
+  /\ ~ incl (map zero_export (value_exports (scan (dts_of_config c d B))))
+           (runtime_exports (scan (js_of_config c (loader_view d) B)))).
 Check (C14_exports_config : forall (c : cfg_text) (d : doc) (B B' : list defbody),
   bodies_ok B = true -> bodies_ok B' = true ->
   names_ok (type_from_config (parse_config c)) d = true ->
@@ -42,6 +58,9 @@ Print Assumptions C14_options_shared.
 Print Assumptions C14_same_module.
 Print Assumptions C14_exports.
 Print Assumptions C14_exports_loader.
+Print Assumptions C14_runtime_exports_partial.
+Print Assumptions C14_loadable_iff_distinct.
+Print Assumptions C14_runtime_exports_refuted.
 Print Assumptions C14_exports_config.
 Print Assumptions C14_exports_exact.
 Print Assumptions C14_js_carries.
